@@ -4,7 +4,8 @@
 (* real QuantumScript API; after every call the driver records the         *)
 (* projection of EVERY live tape as the implementation reports it          *)
 (* (operations, measurements, par_info, get_parameters in its three modes, *)
-(* trainable_params, shots).  TLC re-derives the views with the            *)
+(* trainable_params, shots; operators as trees read through coeffs / ops,  *)
+(* scalar / base, operands).  TLC re-derives the views with the            *)
 (* definitions of TapeParams and decides, at every step, the property-level*)
 (* conjuncts:                                                              *)
 (*   views     par_info / parameter list / trainable indices agree         *)
